@@ -67,6 +67,7 @@ type CtxSpec struct {
 	FailEndGen   int   `json:"fail_end_gen_mod"` // 0 = never; otherwise OnEnd of plugin FailEndK fails when g % FailEndGen == 0
 	Minify       bool  `json:"minify"`
 	Splitting    bool  `json:"splitting"`
+	Inject       bool  `json:"inject,omitempty"` // the last module is also an injected file (resolved and loaded through the plugin)
 }
 
 type Op struct {
@@ -272,6 +273,10 @@ func plugins(c *APICase, st *ctxState, s *store, h *history, fixedGen, fixedVer 
 func buildOptions(c *APICase, st *ctxState, dir string, pl []api.Plugin) api.BuildOptions {
 	o := api.BuildOptions{EntryPoints: []string{"mem:m0"}, Bundle: true, Write: false, Outdir: filepath.Join(dir, "out"), AbsWorkingDir: dir,
 		Format: api.FormatESModule, LogLevel: api.LogLevelSilent, Plugins: pl, MinifyWhitespace: st.spec.Minify, Splitting: st.spec.Splitting}
+	if st.spec.Inject {
+		// injected files are resolved and loaded by the same plugin callbacks, through a separate path in the scanner
+		o.Inject = []string{fmt.Sprintf("mem:m%d", c.Modules-1)}
+	}
 	return o
 }
 
@@ -1093,6 +1098,7 @@ func genAPICase(t *rapid.T) APICase {
 			s.LoadDelayUS = append(s.LoadDelayUS, delay("loaddelay"))
 		}
 		s.Reentrant = rapid.Bool().Draw(t, "reentrant")
+		s.Inject = rapid.IntRange(0, 2).Draw(t, "inject") == 0
 		if rapid.IntRange(0, 2).Draw(t, "failload") == 0 {
 			s.FailLoadGen = rapid.IntRange(2, 4).Draw(t, "failloadgen")
 			s.FailLoadMod = rapid.IntRange(0, c.Modules-1).Draw(t, "failloadmod")
